@@ -74,8 +74,12 @@ impl Read for Scripted {
                     return Err(io::Error::new(io::ErrorKind::Interrupted, "scripted EINTR"));
                 }
                 "err" => {
+                    // every kind other than Interrupted is a hard error (the count selects the kind)
+                    const KINDS: [io::ErrorKind; 7] = [io::ErrorKind::Other, io::ErrorKind::WouldBlock, io::ErrorKind::UnexpectedEof,
+                        io::ErrorKind::TimedOut, io::ErrorKind::InvalidData, io::ErrorKind::BrokenPipe, io::ErrorKind::ConnectionReset];
+                    let kind = KINDS[self.sched[self.idx].1 % KINDS.len()];
                     self.idx += 1;
-                    return Err(io::Error::new(io::ErrorKind::Other, "scripted hard error"));
+                    return Err(io::Error::new(kind, "scripted hard error"));
                 }
                 _ => {
                     // "eof"
